@@ -94,9 +94,12 @@ def _radial_check(a):
         rf = tube.R_f / 2.0
         if not rb_star > rf:
             return True, {"skipped": "R_b* <= R_f/2: outside the valid-borehole domain"}
-        # history, as in the tool's own use: another borehole with the same geometry, conductivities, soil, fluid, flow and height but other grout / pipe heat capacities is
+        # history, as in the tool's own use: another borehole with the same geometry, conductivities, soil, fluid, flow and height but other grout / pipe heat capacities and another fluid is
         # computed first in this interpreter, and the model object is built once (for that borehole) and re-used for this one (GHE.simulate re-uses it)
-        decoy = _make_tube(dict(a, rho_cp_grout=a.get("rho_cp_grout", 3901000.0) * 0.5, rho_cp_pipe=a.get("rho_cp_pipe", 1542000.0) * 1.7))
+        # ... and another fluid (the fluid cells' thermal mass, the film resistance and R_b* of the decoy differ; calc_sts_g_functions must take all of them from the
+        # borehole it is given)
+        other_fluid = dict(fluid="PropyleneGlycol", conc=40.0) if a.get("fluid", "Water") == "Water" else dict(fluid="Water", conc=0.0)
+        decoy = _make_tube(dict(a, rho_cp_grout=a.get("rho_cp_grout", 3901000.0) * 0.5, rho_cp_pipe=a.get("rho_cp_pipe", 1542000.0) * 1.7, **other_fluid))
         rn = RadialNumericalBH(decoy)
         rn.calc_sts_g_functions(decoy)
         captured = []
